@@ -215,7 +215,7 @@ def run(ctx, rep):
     F = ctx.lib
     rep.explanation = ("The decoder's data (RFC 1951 tables, counts, fixed-Huffman map, repeat codes, header field widths) is compared with a "
                        "specification file typed in from the RFC, and the way decode_block/read_block compose that data is checked on canonical "
-                       "def-use descriptors of the MIR; compressed_size is shown to be the byte cursor after the final padding with a bit reader "
+                       "def-use descriptors of the MIR; the literal/distance code lengths are decoded as one run-length sequence and split at HLIT; compressed_size is shown to be the byte cursor after the final padding with a bit reader "
                        "that never reads ahead. A table or composition error made symmetrically in reader and writer — invisible to any round-trip "
                        "test — violates one of these. The canonical-code construction and tree walk are value-level and not decided.")
     rep.trusted = ["spec/rfc1951.json was typed in from RFC 1951", "calculate_huffman_code_tree / decode_symbol implement canonical Huffman decoding (not decided)"]
